@@ -71,9 +71,12 @@ def execute(sc):
     with World(sc) as w:
         w.build()
         applied = 0
+        applied_kinds = {}
         for m in sc.get('muts', []):
             if w.mutate(m):
                 applied += 1
+                kk = 'storage.' + m['m'] + ('->' + m['k'] if m['m'] in ('retype', 'add') and 'k' in m else '')
+                applied_kinds[kk] = applied_kinds.get(kk, 0) + 1
         seam = Seam(w.root, order_key=sc['order_key'], virtual_root=True)
         if blocking_manifest(w.root):
             return mk_result([seam], [], False, outcome='skipped: FIFO Manifest', dontcare={'fifo-manifest': 1})
@@ -184,6 +187,10 @@ def execute(sc):
         violations += internal_violations(results)
         violations += write_violations(seam, snap0, w.snapshot(), 'verify --keep-going')
     counters['mutations_applied'] = applied
+    _res_faults = applied_kinds
     counters['runs_with_2+_offending_or_structural'] = multi
-    return mk_result([seam], violations, judged > 0 and multi > 0, outcome=outcome, dontcare=zones,
-                     counters=counters, ops=len(sc.get('ops', [])))
+    res = mk_result([seam], violations, judged > 0 and multi > 0, outcome=outcome, dontcare=zones,
+                    counters=counters, ops=len(sc.get('ops', [])))
+    for k_, v_ in _res_faults.items():
+        res['faults_fired'][k_] = res['faults_fired'].get(k_, 0) + v_
+    return res
